@@ -325,6 +325,20 @@ def _loop_gen_shape(f):
     return pre, loop, idx[0]
 
 
+def _branch_gen_candidate(f) -> bool:
+    """a generator whose yields are plain statements of for loops (see Normaliser._fuse_branching_generator, which checks the
+    shape on the expanded body)"""
+    ys = [n for n in ast.walk(f) if isinstance(n, (ast.Yield, ast.YieldFrom))]
+    if not ys or any(not isinstance(y, ast.Yield) or y.value is None for y in ys):
+        return False
+    if any(isinstance(n, (ast.Break, ast.Continue, ast.While, ast.Try, ast.With, ast.Lambda)) for n in ast.walk(f)):
+        return False
+    if any(isinstance(n, ast.Return) and n.value is not None for n in ast.walk(f)):
+        return False
+    stmts_with_yield = [n for n in ast.walk(f) if isinstance(n, ast.Expr) and isinstance(n.value, ast.Yield)]
+    return len(stmts_with_yield) == len(ys)
+
+
 class _Bail(Exception):
     pass
 
@@ -748,6 +762,8 @@ class Normaliser:
                 inner = inner.body[0]
             simple_gen = isinstance(inner, ast.Expr) and isinstance(inner.value, ast.Yield)
         if not simple_gen and _loop_gen_shape(f) is not None:
+            simple_gen = True
+        if not simple_gen and _branch_gen_candidate(f):
             simple_gen = True
         for n in ast.walk(f):
             if isinstance(n, (ast.Yield, ast.YieldFrom)) and simple_gen:
@@ -1445,7 +1461,109 @@ class Normaliser:
             gl.lineno = loop.lineno
             self.log.append(f'N7 {fctx["path"]}::{fctx["qual"]}: loop over new generator {helper.qual} fused with its consumer')
             return stmts
-        return None
+        return self._fuse_branching_generator(loop, fctx)
+
+    def _fuse_branching_generator(self, loop, fctx):
+        """for T in G(args): BODY   /   for i, T in enumerate(G(args)): BODY     with G a new generator whose yields sit one per loop in
+        loops selected by if/else (at most one yielding loop runs on a path, every loop yields once per iteration, unconditionally):
+        G's statements with `T = <yielded value>; BODY` in place of each yield (and `i = <loop variable>` when the loop is
+        `for v in range(N)`, whose variable is then the count of values yielded so far)"""
+        it, index_t, item_t = loop.iter, None, loop.target
+        if isinstance(it, ast.Call) and isinstance(it.func, ast.Name) and it.func.id == 'enumerate' and len(it.args) == 1 and not it.keywords \
+                and isinstance(loop.target, ast.Tuple) and len(loop.target.elts) == 2 and isinstance(loop.target.elts[0], ast.Name):
+            it, index_t, item_t = it.args[0], loop.target.elts[0], loop.target.elts[1]
+        if not isinstance(it, ast.Call) or any(isinstance(n, ast.Starred) for n in ast.walk(item_t)):
+            return None
+        r = self._resolve(it, fctx)
+        if r is None:
+            return None
+        helper, receiver = r
+        f = helper.func
+        ys = [n for n in ast.walk(f) if isinstance(n, (ast.Yield, ast.YieldFrom))]
+        # a generator consumed directly by a for loop runs interleaved with it in program order: its statements need not be pure
+        if not ys or any(not isinstance(y, ast.Yield) or y.value is None for y in ys):
+            return None
+        if any(isinstance(n, (ast.Break, ast.Continue, ast.While, ast.Try, ast.With)) for n in ast.walk(f)):
+            return None
+        if any(isinstance(n, ast.Return) and n.value is not None for n in ast.walk(f)):
+            return None
+        # the consumer must run to the end of every iteration (then the generator's statements after a yield always run too)
+        for st in loop.body:
+            for n in [st] + list(walk_scope(st)):
+                if isinstance(n, (ast.Break, ast.Return, ast.Yield, ast.YieldFrom)):
+                    return None
+                if isinstance(n, ast.Continue):
+                    return None
+        if not all(isinstance(a, (ast.Name, ast.Constant)) or is_pure(a) for a in it.args) or not all(is_pure(kw.value) for kw in it.keywords):
+            return None
+        n_log = len(self.log)
+        exp = self._expand(it, helper, receiver, fctx, generator=True)
+        if exp is None:
+            return None
+        stmts, _ = exp
+
+        def has_yield(st):
+            return any(isinstance(n, ast.Yield) for n in ast.walk(st))
+
+        loops = []
+
+        def shape(block, in_loop):
+            """every statement list holds at most one yielding statement; yields are direct statements of a top-level loop"""
+            yielding = [st for st in block if has_yield(st)]
+            if len(yielding) > 1:
+                return False
+            for st in yielding:
+                if isinstance(st, ast.If):
+                    if in_loop or not shape(st.body, False) or not shape(st.orelse, False):
+                        return False
+                elif isinstance(st, ast.For):
+                    if in_loop or st.orelse:
+                        return False
+                    direct = [x for x in st.body if isinstance(x, ast.Expr) and isinstance(x.value, ast.Yield)]
+                    if len(direct) != 1 or sum(1 for x in st.body if has_yield(x)) != 1:
+                        return False
+                    loops.append((st, direct[0]))
+                else:
+                    return False
+            return True
+
+        if not shape(stmts, False) or not loops:
+            del self.log[n_log:]
+            return None
+        # the loop targets get one name per copy of the consumer's body (they are then bound once each), unless they are read after the loop
+        inside = {id(n) for n in ast.walk(loop)}
+        t_names = {n.id for n in ast.walk(loop.target) if isinstance(n, ast.Name)}
+        used_outside = {n.id for n in walk_scope(fctx['func']) if isinstance(n, ast.Name) and n.id in t_names and id(n) not in inside}
+        for k_, (gl, y) in enumerate(loops):
+            ren_ = {nm: f'{nm}__y{k_}' for nm in t_names - used_outside} if len(loops) > 1 else {}
+            pre = []
+            if index_t is not None:
+                rng = gl.iter
+                if not (isinstance(rng, ast.Call) and isinstance(rng.func, ast.Name) and rng.func.id == 'range' and len(rng.args) == 1 and not rng.keywords
+                        and isinstance(gl.target, ast.Name)):
+                    del self.log[n_log:]
+                    return None
+                if any(isinstance(n, ast.Name) and n.id == gl.target.id and isinstance(n.ctx, ast.Store) for x in gl.body for n in ast.walk(x)):
+                    del self.log[n_log:]
+                    return None
+                pre.append(ast.copy_location(ast.Assign(targets=[ast.Name(id=index_t.id, ctx=ast.Store())], value=ast.Name(id=gl.target.id, ctx=ast.Load()), lineno=loop.lineno), loop))
+            tgt = copy.deepcopy(item_t)
+            for n in ast.walk(tgt):
+                if isinstance(n, (ast.Name, ast.Tuple, ast.List)):
+                    n.ctx = ast.Store()
+            bind = ast.copy_location(ast.Assign(targets=[tgt], value=y.value.value, lineno=loop.lineno), loop)
+            i = gl.body.index(y)
+            body_k = copy.deepcopy(list(loop.body))
+            if ren_:
+                for blk in (pre, [bind.targets[0]], body_k):
+                    for st in blk:
+                        for n in ast.walk(st):
+                            if isinstance(n, ast.Name) and n.id in ren_:
+                                n.id = ren_[n.id]
+            gl.body = gl.body[:i] + pre + (_split_tuple_assign(bind) or [bind]) + body_k + gl.body[i + 1:]
+            gl.lineno = loop.lineno
+        self.log.append(f'N7 {fctx["path"]}::{fctx["qual"]}: loop over new branching generator {helper.qual} ({len(loops)} yielding loops) fused with its consumer')
+        return stmts
 
     @staticmethod
     def _fold_attr_strings(func):
@@ -2898,9 +3016,14 @@ def unroll_tables(func):
 def apply(modules: dict) -> list:
     if os.environ.get('KVERIF_NONORM') == '1':
         return []
+    from .desugar import desugar_tree
+    log0 = []
+    for path, mod in modules.items():
+        if 'match ' in mod.text or ':=' in mod.text or 'partial' in mod.text:
+            desugar_tree(mod.tree, path, log0)
     base = load_baseline()
     if not base:
-        return []
+        return log0
     # fast path: nothing new anywhere
     bm = base.get('modules', {})
     dirty = False
@@ -2912,5 +3035,5 @@ def apply(modules: dict) -> list:
             dirty = True
             break
     if not dirty:
-        return []
-    return Normaliser(modules, base).run()
+        return log0
+    return log0 + Normaliser(modules, base).run()
